@@ -59,6 +59,8 @@ type gen struct {
 	images  int
 	seed0   int64
 	configs int
+	lockEvs []hx.Ev
+	ntx     int
 	// forceOpt, when set, overrides the randomly chosen storage options (C19)
 	forceOpt func(o *nutsdb.Options)
 }
@@ -976,7 +978,7 @@ func main() {
 	writeSummary := func() {
 		if c.Summary != "" {
 			b, _ := json.Marshal(map[string]interface{}{"events": rec.N, "by_op": rec.Cnt, "histories": c.Hist, "panics": g.s.Panics,
-				"nontrivial": map[string]int{"crash_images": g.images, "configs": g.configs}})
+				"nontrivial": map[string]int{"crash_images": g.images, "configs": g.configs, "concurrent_txs": g.ntx, "lock_events": len(g.lockEvs)}})
 			os.WriteFile(c.Summary, b, 0644)
 		}
 	}
@@ -995,6 +997,14 @@ func main() {
 			g.histKV()
 		case "fill":
 			g.histFill()
+		case "conc": // C14: several databases, mixed readers and writers
+			g.histConc(concOpts{ndb: 1 + g.r.Intn(3), ngor: 4 + g.r.Intn(13), ntx: c.Steps})
+		case "concmerge": // C17: a goroutine merges while the others read and write
+			g.histConc(concOpts{ndb: 1, ngor: 3 + g.r.Intn(6), ntx: c.Steps, merger: true})
+		case "concmergegate": // C17: forced schedule, an update commits between Merge's scan and rewrite
+			g.histConc(concOpts{ndb: 1, ngor: 2, ntx: c.Steps, merger: true, gated: true})
+		case "concbackup": // C18: backups while the others write
+			g.histConc(concOpts{ndb: 1 + g.r.Intn(2), ngor: 3 + g.r.Intn(6), ntx: c.Steps, backup: true})
 		case "page": // C03: paged scans over a larger key universe (several B+ tree leaves)
 			if !g.paged {
 				g.paged = true
@@ -1053,6 +1063,17 @@ func main() {
 	if err := rec.Close(); err != nil {
 		fmt.Fprintln(os.Stderr, "harness:", err)
 		os.Exit(2)
+	}
+	if len(g.lockEvs) > 0 {
+		lr, err := hx.NewRecorder(c.Out + ".lock")
+		if err != nil {
+			fmt.Fprintln(os.Stderr, "harness:", err)
+			os.Exit(2)
+		}
+		for _, e := range g.lockEvs {
+			lr.Emit(e)
+		}
+		lr.Close()
 	}
 	writeSummary()
 }
